@@ -454,6 +454,7 @@ func nullabilityOnlyConflict(msg string) bool {
 	return true
 }
 
+var reOpHeader = regexp.MustCompile(`^(query|mutation|subscription)[ _0-9A-Za-z]*\([^)]*\)`)
 var reVarName = regexp.MustCompile(`\$[a-z]+`)
 var reInlineOn = regexp.MustCompile(`\.\.\. on [_A-Za-z][_0-9A-Za-z]* ?`)
 
@@ -462,8 +463,9 @@ var reInlineOn = regexp.MustCompile(`\.\.\. on [_A-Za-z][_0-9A-Za-z]* ?`)
 func onlyFragmentStructure(a, b string) bool {
 	norm := func(s string) string {
 		// variable letters follow the order of first use, which fragment nesting can permute
-		if i := strings.Index(s, "){"); i > 0 && strings.Contains(s[:i], "($") {
-			s = s[i+1:]
+		// (the header is cut by pattern: an operation-level directive may follow the variable list)
+		if m := reOpHeader.FindStringIndex(s); m != nil {
+			s = s[m[1]:]
 		}
 		s = reVarName.ReplaceAllString(s, "$$")
 		s = reInlineOn.ReplaceAllString(s, " ")
